@@ -112,34 +112,87 @@ class Oracles:
 class _Reader:
     """rfile: hands out the byte lines one by one and remembers where the output stood"""
 
-    def __init__(self, lines, wfile):
+    def __init__(self, lines, out):
         self.lines = list(lines)
         self.i = 0
         self.marks = []
-        self.wfile = wfile
+        self.out = out
 
-    def readline(self):
-        self.marks.append(self.wfile.tell())
+    def readline(self, *a):
+        self.marks.append(len(self.out))
         if self.i >= len(self.lines):
             return b""
         b = self.lines[self.i]
         self.i += 1
         return b
 
+    def close(self):
+        pass
+
+    closed = False
+
+    def flush(self):
+        pass
+
+
+class _FakeSocket:
+    """what socketserver.StreamRequestHandler needs from the client socket"""
+
+    def __init__(self, lines):
+        self.out = bytearray()
+        self.reader = _Reader(lines, self.out)
+
+    def settimeout(self, t):
+        pass
+
+    def setsockopt(self, *a):
+        pass
+
+    def makefile(self, mode="rb", bufsize=-1):
+        if "r" in mode:
+            return self.reader
+        sock = self
+
+        class W:
+            closed = False
+
+            def write(self_, data):
+                sock.out += bytes(data)
+                return len(data)
+
+            def flush(self_):
+                pass
+
+            def close(self_):
+                pass
+
+            def tell(self_):
+                return len(sock.out)
+
+        return W()
+
+    def sendall(self, data):
+        self.out += bytes(data)
+
+    def send(self, data):
+        self.out += bytes(data)
+        return len(data)
+
+
+class _FakeServer:
+    def __init__(self, store):
+        self.store = store
+        self.disconnect_after_receiving_num_commands = None
+        self.disconnect_after_sending_num_commands = None
+
 
 def real_session(store, byte_lines):
-    """run YncaCommandHandler.handle on the lines (each a bytes object WITHOUT the newline).
+    """run a real YncaCommandHandler (constructed the way socketserver does: __init__ runs setup, handle, finish)
+    on the lines (each a bytes object WITHOUT the newline).
     -> dict(outs=[[reply lines] per input line], exc=None|(type name, text, index of the line), oracles)"""
     import ynca.server as S
 
-    h = S.YncaCommandHandler.__new__(S.YncaCommandHandler)
-    h.store = store
-    h.disconnect_after_receiving_num_commands = None
-    h.disconnect_after_sending_num_commands = None
-    h._commands_sent = 0
-    h.client_address = ("sim", 0)
-    h.wfile = io.BytesIO()
-    h.rfile = _Reader([b + b"\n" for b in byte_lines], h.wfile)
+    sock = _FakeSocket([b + b"\n" for b in byte_lines])
     orc = Oracles()
     saved = {k: S.__dict__.get(k, None) for k in ("float", "int", "str")}
     S.float, S.int, S.str = orc.float_, orc.int_, orc.str_
@@ -147,17 +200,17 @@ def real_session(store, byte_lines):
     try:
         with contextlib.redirect_stdout(io.StringIO()):
             try:
-                h.handle()
+                S.YncaCommandHandler(sock, ("sim", 0), _FakeServer(store))
             except BaseException as e:  # noqa
-                exc = (type(e).__name__, str(e)[:200], h.rfile.i - 1)
+                exc = (type(e).__name__, str(e)[:200], sock.reader.i - 1)
     finally:
         for k, v in saved.items():
             if v is None:
                 S.__dict__.pop(k, None)
             else:
                 S.__dict__[k] = v
-    data = h.wfile.getvalue()
-    marks = h.rfile.marks + [len(data)]
+    data = bytes(sock.out)
+    marks = sock.reader.marks + [len(data)]
     # marks[k] is the output position when line k was read: the replies to line k lie between marks[k] and marks[k+1]
     outs = []
     for k in range(len(byte_lines)):
